@@ -24,6 +24,8 @@ pub fn is_prime(n: &BigInt) -> bool {
     }
 
     let mut rng = rand::thread_rng();
+    #[cfg(feature = "verif-hooks")]
+    let mut rng = crate::verif_hooks::rng();
 
     let k = 20;
     for _ in 0..k {
